@@ -156,6 +156,24 @@ class C03(CheckBase):
                         raise Violation("C03|%s|%s|fresh-session-reports-stale-login" % (action[0], what),
                                         {"action": action, "token": t, "reported_state": info.get("state"), "model_login": tk.login})
                     ctx.count("fresh_session_lookahead")
+                    # the token has no session in the model: nothing may be left of the closed ones.  A read-only session that secretly survived would
+                    # refuse the SO login, any surviving session would refuse C_InitToken (both probed here, on every transition, before states merge)
+                    if tk.login == PUBLIC:
+                        r2 = ctx.p.Login(r["h"], C.CKU_SO, SO_PINS[t][tk.so])
+                        if r2["rv"] != 0:
+                            raise Violation("C03|%s|%s|lookahead-so-login-refused-although-no-session-is-open|%s" % (action[0], what, C.CKR_NAMES.get(r2["rv"], hex(r2["rv"]))),
+                                            {"action": action, "token": t})
+                        ctx.p.Logout(r["h"])
+                    ctx.p.CloseSession(r["h"])
+                    ctx.sh.snap()       # C_InitToken writes: private copy of the directory
+                    try:
+                        r3 = ctx.p.InitToken(slots[t], SO_PINS[t][tk.so], t)
+                        if r3["rv"] != 0:
+                            raise Violation("C03|%s|%s|lookahead-inittoken-refused-although-no-session-is-open|%s" % (action[0], what, C.CKR_NAMES.get(r3["rv"], hex(r3["rv"]))),
+                                            {"action": action, "token": t})
+                        ctx.count("inittoken_lookahead")
+                    finally:
+                        ctx.sh.back()
             finally:
                 ctx.sh.unwind(d0)
 
@@ -178,6 +196,8 @@ class C03(CheckBase):
                 m.sess.append([h, t, rw])
                 ctx.count("open_ok")
             else:
+                if allowed:
+                    raise Violation("C03|open|refused-although-permitted|rw=%d|login=%d|%s" % (rw, m.tok[t].login, C.CKR_NAMES.get(r["rv"], hex(r["rv"]))), {"action": a})
                 ctx.count("open_refused")
             self.compare(ctx, m, a, r["rv"], "ok" if r["rv"] == 0 else "fail")
             return m
@@ -222,7 +242,11 @@ class C03(CheckBase):
                 tk.login = USER if ut == C.CKU_USER else SO
                 ctx.count("login_ok")
             else:
-                ctx.count("login_refused_permitted" if allowed else "login_refused")
+                if allowed:
+                    # the state machine of PKCS#11 has no other obstacle than the ones in `allowed` (this library has no PIN lock-out)
+                    raise Violation("C03|login|refused-although-permitted|user=%d|%s" % (ut, C.CKR_NAMES.get(r["rv"], hex(r["rv"]))),
+                                    {"action": a, "login": tk.login, "ro_sessions": int(any(s[1] == t and not s[2] for s in m.sess))})
+                ctx.count("login_refused")
             self.compare(ctx, m, a, r["rv"], "ok" if r["rv"] == 0 else "fail")
             return m
         if kind == "logout":
@@ -263,7 +287,9 @@ class C03(CheckBase):
                     m.c_inits += 1
                 ctx.count("inittoken_ok")
             else:
-                ctx.count("inittoken_refused_permitted" if allowed else "inittoken_refused")
+                if allowed:
+                    raise Violation("C03|inittoken|refused-although-permitted|%s" % C.CKR_NAMES.get(r["rv"], hex(r["rv"])), {"action": a, "sessions_on_other_tokens": sum(1 for s in m.sess if s[1] != t)})
+                ctx.count("inittoken_refused")
             self.compare(ctx, m, a, r["rv"], "ok" if r["rv"] == 0 else "fail")
             return m
         if kind == "initpin":
